@@ -332,8 +332,8 @@ def run(ctx):
                     rep.violation('R-C20-2', key, '%s of heap-owning, non-wiping %s `%s` carrying secret taint from {%s}: freed without being overwritten; value = %s' % (
                         kind, ty, b.local_name(place['l']) or '_%d' % place['l'], ', '.join(sorted(src)), short(term, 260)), where)
     no_realloc(ctx, taint, wiping_adts)
-    rep.floor('R-C20-2', 'Drop terminators examined', ndrops, 200)
-    rep.floor('R-C20-2', 'heap-owning non-wiping drop/move sites', len(seen_keys), 20)
+    rep.floor('R-C20-2', 'Drop terminators examined', ndrops, 100)
+    rep.floor('R-C20-2', 'heap-owning non-wiping drop/move sites', len(seen_keys), 10)
     rep.extra['drop_scan'] = {'drop_terminators': ndrops, 'heap_nonwiping_sites': nheap, 'distinct_keys': len(seen_keys),
                               'challenge_fns': sorted(taint.challenge_fns), 'prover_bodies': sorted(taint.prover_bodies),
                               'tainted_params': sorted('%s#%d<-%s' % (k[0], k[1], '+'.join(sorted(v))) for k, v in taint.param_taint.items())[:60]}
